@@ -74,9 +74,20 @@ Definition Rt (tf tm : triple) : Prop :=
 Lemma Rt_same i i' m m' d : mle m' m -> Rt (i, m, d) (i', m', d).
 Proof. intros H. split; [exact H|constructor]. Qed.
 
+(** the machine's stack is the predicate's stack, entry by entry, except that
+    the machine has pushed an annotation pop after every annotated document it
+    opened since *)
+Inductive Rs : list triple -> list triple -> Prop :=
+| Rs_nil : Rs [] []
+| Rs_cons tf tm F M : Rt tf tm -> Rs F M -> Rs (tf :: F) (tm :: M)
+| Rs_pop i m a F M : Rs F M -> Rs F ((i, m, PopD a) :: M).
+
+Lemma Rs_refl F : Rs F F.
+Proof. induction F as [|[[a b] c] tl IH]; constructor; [apply Rt_same; now left|exact IH]. Qed.
+
 Lemma Forall2_Rt_push i i' m m' l F M :
-  mle m' m -> Forall2 Rt F M ->
-  Forall2 Rt (push_all i m l F) (push_all i' m' l M).
+  mle m' m -> Rs F M ->
+  Rs (push_all i m l F) (push_all i' m' l M).
 Proof.
   intros Hm HR. unfold push_all. induction l as [|x tl IH]; cbn [map app]; [exact HR|].
   constructor; [now apply Rt_same|exact IH].
@@ -93,28 +104,40 @@ Proof.
 Qed.
 
 Lemma classic_stk_inv i m d F :
-  classic_stk ((i, m, d) :: F) -> classic d = true /\ classic_stk F.
+  classic_stk ((i, m, d) :: F) -> classict d = true /\ classic_stk F.
 Proof. intros H. inv H. auto. Qed.
 
 Lemma classic_stk_cons i m d F :
   classic d = true -> classic_stk F -> classic_stk ((i, m, d) :: F).
+Proof. intros. constructor; [now apply classic_t|auto]. Qed.
+
+Lemma classic_stk_cons_t i m d F :
+  classict d = true -> classic_stk F -> classic_stk ((i, m, d) :: F).
 Proof. intros. constructor; auto. Qed.
 
 Lemma sim : forall nf smart w rw mnl maxw cl F,
   fits_loop evs nf smart w rw mnl maxw cl F = Some true ->
   forall fuel ff sm' w' rw' M col o out,
-    Forall2 Rt F M -> classic_stk F ->
+    Rs F M -> classic_stk F ->
     layout_loop evs fuel ff sm' w' rw' (mkL M col o) = Some out ->
     exists new, out = rev o ++ new /\ flw new <= cl.
 Proof.
   induction nf as [|nf IH]; intros smart w rw mnl maxw cl F HF fuel ff sm' w' rw' M col o out HR HC HL;
     [discriminate|].
+  revert fuel col o out HL.
+  induction HR as [|tf tm F' M' Hrt HR' _|i0 m0 a0 F0 M0 HR0 IHR]; intros fuel col o out HL.
+  { (* both stacks empty *)
+    cbn [fits_loop] in HF. unfold fits_step in HF. destruct (cl <? 0) eqn:Ecl; [discriminate|]. apply Z.ltb_ge in Ecl.
+    destruct fuel as [|fuel]; [discriminate|]. cbn in HL. inv HL.
+    exists []. rewrite app_nil_r. split; [reflexivity|cbn; lia]. }
+  2:{ (* the machine closes an annotation the predicate never saw opened as a stack entry *)
+    destruct fuel as [|fuel]; [discriminate|].
+    cbn [layout_loop layout_step ls_stk ls_col ls_out] in HL.
+    destruct (IHR HF HC _ _ _ _ HL) as (new & -> & Hn).
+    exists (SPop a0 :: new). cbn [rev flw]. rewrite <- app_assoc. split; [reflexivity|exact Hn]. }
   cbn [fits_loop] in HF. unfold fits_step in HF.
   destruct (cl <? 0) eqn:Ecl; [discriminate|]. apply Z.ltb_ge in Ecl.
-  destruct F as [|[[i m] d] F'].
-  { inv HR. destruct fuel as [|fuel]; [discriminate|]. cbn in HL. inv HL.
-    exists []. rewrite app_nil_r. split; [reflexivity|cbn; lia]. }
-  inversion HR as [|tf tm F0 M' Hrt HR']; subst. destruct tm as [[i' m'] d'].
+  destruct tf as [[i m] d]. destruct tm as [[i' m'] d'].
   destruct Hrt as [Hm Hd]. cbn [fst snd] in Hm, Hd.
   apply classic_stk_inv in HC as [Hcd HC'].
   inversion Hd as [d0|k1 k2 y]; subst.
@@ -123,7 +146,7 @@ Proof.
     cbn [layout_loop layout_step ls_stk ls_col ls_out] in HL.
     eapply IH; [exact HF| |apply classic_stk_cons; [exact Hcd|exact HC']|exact HL].
     constructor; [now apply Rt_same|exact HR']. }
-  destruct d' as [ |s|l|j x|x|x|b f|b f|l|a x| |x|p|a]; cbn [classic] in Hcd; try discriminate.
+  destruct d' as [ |s|l|j x|x|x|b f|b f|l|a x| |x|p|a]; cbn [classict classic] in Hcd; try discriminate.
   - (* Nil *) destruct fuel as [|fuel]; [discriminate|].
     cbn [layout_loop layout_step ls_stk ls_col ls_out] in HL. eapply IH; eauto.
   - (* Text *) destruct fuel as [|fuel]; [discriminate|].
@@ -164,6 +187,13 @@ Proof.
     + apply hard_done in HL as (new & -> & Hn). exists new. split; [reflexivity|lia].
     + eapply IH; [exact HF| |apply classic_stk_cons; [exact Hcf|exact HC']|exact HL].
       constructor; [apply Rt_same; now left|exact HR'].
+  - (* Annot: the machine opens the annotation and schedules its pop *)
+    destruct fuel as [|fuel]; [discriminate|].
+    cbn [layout_loop layout_step ls_stk ls_col ls_out] in HL.
+    assert (HRn : Rs ((i, m, x) :: F') ((i', m', x) :: (i', m', PopD a) :: M')).
+    { apply Rs_cons; [now apply Rt_same|]. now apply Rs_pop. }
+    destruct (IH _ _ _ _ _ _ _ HF _ _ _ _ _ _ _ _ _ HRn (classic_stk_cons _ _ _ _ Hcd HC') HL) as (new & -> & Hn).
+    exists (SPush a :: new). cbn [rev flw]. rewrite <- app_assoc. split; [reflexivity|exact Hn].
   - (* HardLine *) apply hard_done in HL as (new & -> & Hn). exists new. split; [reflexivity|lia].
   - (* Align *) destruct fuel as [|fuel]; [discriminate|].
     cbn [layout_loop layout_step ls_stk ls_col ls_out] in HL.
@@ -175,6 +205,11 @@ Proof.
     (* normalised to an always_break: the predicate fails at the next step *)
     destruct nf as [|nf']; [discriminate|]. cbn [fits_loop] in HF. unfold fits_step in HF.
     destruct (cl <? 0); discriminate.
+  - (* an annotation pop that was on the stack before the look-ahead started *)
+    destruct fuel as [|fuel]; [discriminate|].
+    cbn [layout_loop layout_step ls_stk ls_col ls_out] in HL.
+    destruct (IH _ _ _ _ _ _ _ HF _ _ _ _ _ _ _ _ _ HR' HC' HL) as (new & -> & Hn).
+    exists (SPop a :: new). cbn [rev flw]. rewrite <- app_assoc. split; [reflexivity|exact Hn].
 Qed.
 
 (** The statement for one decision: if the predicate said "fits" for a group,
@@ -190,9 +225,8 @@ Proof.
   apply classic_stk_inv in HC as [Hcx HC'].
   unfold fits in Hfit.
   destruct (sim _ _ _ _ _ _ _ _ Hfit fuel ff smart w rw ((i, MFlat, x) :: rest) col o out) as (new & -> & Hn).
-  - clear. induction ((i, MFlat, x) :: rest) as [|[[a b] c] tl IHl]; constructor; auto.
-    apply Rt_same. now left.
-  - apply classic_stk_cons; auto.
+  - apply Rs_refl.
+  - apply classic_stk_cons; [exact Hcx|exact HC'].
   - exact HL.
   - exists new. split; [reflexivity|]. unfold avail in Hn. lia.
 Qed.
